@@ -3,8 +3,8 @@
    the rules give, carries the key that is the closed function of that position, and a key history equal to the keys of the positions of
    the game. *)
 From CV Require Import Chess.Rules Chess.History Chess.HistoryKeys Chess.ValidStep Chess.GameInv Engine.PositionRep Engine.RepAbs Engine.RepRefine
-  Engine.RepRefineLegal Engine.KeyScratch Engine.KeyScratchMove Engine.KeyScratchInit Engine.HistoryRefine Engine.PolyglotProofs Engine.RepProofs Engine.RepRoundTrip Engine.RepRoundTripLegal Engine.Material.
-From Coq Require Import List NArith ZArith Lia Bool.
+  Engine.RepRefineLegal Engine.KeyScratch Engine.KeyScratchMove Engine.KeyScratchInit Engine.HistoryRefine Engine.PolyglotProofs Engine.RepProofs Engine.RepRoundTrip Engine.RepRoundTripLegal Engine.Material Engine.UndoInv.
+From Coq Require Import List NArith ZArith Lia Bool Permutation.
 Import ListNotations.
 Local Open Scope N_scope.
 Local Strategy expand [count_piece king_sq attacked in_check valid_position].
@@ -182,6 +182,20 @@ Section WithTables.
   Proof.
     intros Hg Hc Hf Hl Hn. destruct (game_refines p0 ms Hg Hc Hf Hl Hn) as [Ra [[[Hp _] _] _]].
     rewrite <- Ra. apply (enough_material_refines zt). exact Hp.
+  Qed.
+
+  (* ... and every piece list as a set (swap-remove may reorder it), with the list / key invariant intact *)
+  Theorem game_undo_lists (p0 : position) (ms : list move) (m : move) (pc : N) :
+    game_inv p0 -> (0 <= clock p0)%Z -> (1 <= fullmove p0)%Z -> legal_line p0 ms = true -> (clock p0 + Z.of_nat (length ms) < 255)%Z ->
+    legal (play p0 ms) m = true -> 1 <= pc <= 12 ->
+    let s := play_rep zt (rep_of_position zt p0) ms in
+    let s' := undo_move zt (fst (do_move zt s (enc m))) (enc m) (snd (do_move zt s (enc m))) in
+    Permutation (nthd (r_lists s') pc []) (nthd (r_lists s) pc []) /\ piece_inv zt s'.
+  Proof.
+    intros Hg Hc Hf Hl Hn Hm Hpc s s'. destruct (game_refines p0 ms Hg Hc Hf Hl Hn) as [Ra [Ia _]]. fold s in Ra, Ia.
+    assert (Hpl : pseudo_legal (rep_abs s) m = true) by (rewrite Ra; unfold legal in Hm; apply andb_prop in Hm as [A _]; exact A).
+    pose proof (state_inv_rep_ok s Ia) as Hok. destruct Ia as [Hk _].
+    split; [apply undo_do_lists; assumption|apply undo_do_piece_inv; assumption].
   Qed.
 
   Lemma valid_hyps (p : position) : valid_position p = true -> game_inv p /\ (0 <= clock p)%Z /\ (1 <= fullmove p)%Z.
